@@ -69,12 +69,32 @@ static std::vector<std::uint64_t> critical_raws(std::vector<long double> const& 
     return raws;
 }
 
+// True if the cumulative normalised weights are exactly representable in T whatever way they are computed:
+// every partial sum is exact (error-free transformation: the rounding error of a + b is (a + b) - a - b, itself
+// exact in round-to-nearest) and the total is a power of two, so that the normalisation is exact as well.
+// For such vectors the intervals are known exactly and the oracle needs no tolerance.
+template <typename T>
+static bool sums_exact(std::vector<T> const& w)
+{
+    T acc = T();
+    for (T v : w)
+    {
+        T const t = acc + v;
+        T const bv = t - acc;
+        T const err = (acc - (t - bv)) + (v - bv);
+        if (err != T()) return false;
+        acc = t;
+    }
+    int e = 0;
+    return acc > T() && std::frexp(acc, &e) == T(0.5) && acc >= std::numeric_limits<T>::min();
+}
+
 // oracle: is `channel` an acceptable selection for canonical value u?
 template <typename T>
 static std::string judge(std::vector<T> const& w, std::vector<long double> const& c, T u, sz channel,
     std::string& key)
 {
-    long double const delta = 8 * static_cast<long double>(std::numeric_limits<T>::epsilon());
+    long double const delta = sums_exact(w) ? 0.0L : 8 * static_cast<long double>(std::numeric_limits<T>::epsilon());
     std::ostringstream o;
     if (channel >= w.size())
     {
@@ -91,7 +111,7 @@ static std::string judge(std::vector<T> const& w, std::vector<long double> const
     long double const lo = channel == 0 ? 0.0L : c[channel - 1];
     long double const hi = c[channel];
     long double const uu = static_cast<long double>(u);
-    if (uu < lo - delta || uu > hi + delta)
+    if (uu < lo - delta || uu > hi + delta || (delta == 0 && uu >= hi))
     {
         key = "wrong-interval";
         o << "selected channel " << channel << " with interval [" << vf::dec(lo) << ", " << vf::dec(hi)
@@ -337,6 +357,19 @@ static void all_for_type(report& r, bool thorough)
         { std::vector<T> w(len, T(1)); for (sz i = 0; i < len; i += 2) w[i] = T(0); pats.push_back(w); }
         for (sz z = 0; z != len; ++z) { std::vector<T> w(len, T(1)); w[z] = T(0); if (z + 1 < len) w[z + 1] = T(3); pats.push_back(w); }
         for (auto const& w : pats) part_a_vector<T>(r, w);
+    }
+
+    // channels of the smallest possible relative weight next to the end of the unit interval (the boundary is the
+    // largest canonical value itself), and weight vectors whose total is subnormal or barely normal
+    {
+        T const eps = std::numeric_limits<T>::epsilon(), dm = std::numeric_limits<T>::denorm_min(), mn = std::numeric_limits<T>::min();
+        std::vector<std::vector<T>> const pats = {
+            {T(1) - eps / 2, eps / 2}, {T(1) - eps / 2, eps / 2, T(0)}, {T(1) - eps / 2, T(0), eps / 2}, {T(1) - eps, eps / 2, eps / 2}, {T(1) - eps, eps},
+            {eps / 2, T(1) - eps / 2}, {T(0.5), T(0.5) - eps / 2, eps / 2}, {T(2) - eps, eps}, {T(2) - eps, T(0), eps, T(0)},
+            {dm, dm}, {dm, T(0), dm}, {dm, dm, 2 * dm}, {3 * dm, 5 * dm}, {mn / 4, T(0), mn / 4}, {mn / 2, mn / 4, mn / 4}, {mn / 2, mn / 2}, {mn, mn},
+            {T(1e-40L), T(2e-40L), T(0), T(1e-40L)}, {mn * T(0.75), mn * T(0.125)}, {mn, T(0), 3 * mn},
+        };
+        for (auto const& w : pats) { bool ok = true; for (T v : w) ok = ok && v >= T(); if (ok) part_a_vector<T>(r, w); }
     }
 
     if (r.want_prefix("mc "))
